@@ -1,6 +1,7 @@
 import CTM.Drive.Util
 import CTM.Model.Chunking
 import CTM.Model.Sparse
+import CTM.Generated.SparseConsts
 open Lean
 
 namespace CTM.Drive.Sparse
@@ -31,6 +32,13 @@ def jBlocks (bs : List (Dense Rat × Nat × Nat)) : Json :=
 
 def parseSlice (j : Json) : R (Option (Nat × Nat)) := asOption (asPair asNat asNat) j
 
+/-- the constants as regenerated from the current source -/
+def sourceConsts : BudgetConsts :=
+  { minCount := CTM.Generated.SparseConsts.countMinLoadChunk
+    minLoad := CTM.Generated.SparseConsts.transposeMinLoadChunk
+    minEl := CTM.Generated.SparseConsts.transposeMinElements
+    dexBytes := CTM.Generated.SparseConsts.dexBytes }
+
 /-- `{"countGb": q, "loadGb": q, "elGb": q, "dataBytes": n, "indptrBytes": n,
 "indicesBytes": n}` or directly `{"loCount": n, "lo": n, "el": n}` -/
 def parseBudget (j : Json) : R Budget := do
@@ -39,7 +47,7 @@ def parseBudget (j : Json) : R Budget := do
     return { loCount := ← asNat (← field j "loCount"), lo := ← asNat (← field j "lo"),
              el := ← asNat (← field j "el") }
   | .error _ =>
-    return Budget.of (← asRat (← field j "countGb")) (← asRat (← field j "loadGb"))
+    return Budget.ofConsts sourceConsts (← asRat (← field j "countGb")) (← asRat (← field j "loadGb"))
       (← asRat (← field j "elGb")) (← asNat (← field j "dataBytes"))
       (← asNat (← field j "indptrBytes")) (← asNat (← field j "indicesBytes"))
 
